@@ -30,7 +30,9 @@ PROPS = {
 }
 
 _IMPLS_UNIT = {"kind": "verus", "unit": "impls"}
-_IMPLS_FUNCS = "(), bool, String, Vec<T>, Option<T>, Box<T>, HashSet<T>, BTreeSet<T>, [T; N], (A,B), (A,B,C), HashMap<K,T>, BTreeMap<K,T>, take_cf_content"
+_JSON_TARGET_UNIT = {"kind": "verus", "unit": "json_target"}
+_JSON_TARGET_ASSUME = ["serde_json::Value as a target (unit json_target): the payload is a finite tree but its type is abstract, so the recursive reference semantics (only fault: a float JSON cannot hold, reported once at its location) is introduced by two axioms giving its defining equations; termination of the recursive exec function is not proved (exec_allows_no_decreases_clause); serde_json::{Value, Number, Map} are stand-in declarations mirroring the public API; the *contents* of the resulting document are not modelled (C13 scalars: Kani)"]
+_IMPLS_FUNCS = "(), bool, String, Vec<T>, Option<T>, Box<T>, HashSet<T>, BTreeSet<T>, [T; N], (A,B), (A,B,C), HashMap<K,T>, BTreeMap<K,T>, take_cf_content, deserialize"
 
 PROPS.update({
     "C01": {
@@ -155,7 +157,12 @@ PROPS.update({
 })
 
 _ERRORS_UNIT = {"kind": "verus", "unit": "errors"}
-PROPS["C03"]["units"] = [_IMPLS_UNIT, _ERRORS_UNIT]
+PROPS["C03"]["units"] = [_IMPLS_UNIT, _JSON_TARGET_UNIT, _ERRORS_UNIT]
+for _p in ("C01", "C02", "C04"):
+    PROPS[_p]["units"] = [_IMPLS_UNIT, _JSON_TARGET_UNIT]
+for _p in ("C01", "C02", "C03", "C04"):
+    PROPS[_p]["assumptions"] = _CONTAINER_ASSUME + _JSON_TARGET_ASSUME
+    PROPS[_p]["text"] += " serde_json::Value as a *target* (src/serde_json.rs) is proved against the same postconditions in unit json_target (arrays and objects: same accumulator invariants; the only fault is a non-finite float)."
 PROPS["C03"]["text"] += " The built-in error types are proved (Verus, unit 'errors') to answer Break to every report and to return exactly the handed error from merge, so for them the result is the first report of the keep-going run."
 PROPS["C13"] = {
     "title": "serde_json bridge is lossless and self-consistent", "level": "proof",
@@ -214,7 +221,7 @@ PROPS["C12"] = {
     "title": "deserialize is total: it returns Ok or Err, it never panics", "level": "proof",
     "technique": "Verus proves every extracted function free of panics (unwrap / panic! / index / arithmetic) under the value-source contract; Kani reports any reachable panic or overflow in the real compiled code of the scalar, serde_json-number and derive harnesses as a failed check",
     "design_ref": "DESIGN.md §A.6, §4 C12",
-    "units": [{"kind": "verus", "unit": "impls"}, {"kind": "verus", "unit": "value"},
+    "units": [{"kind": "verus", "unit": "impls"}, {"kind": "verus", "unit": "value"}, {"kind": "verus", "unit": "json_target"},
               {"kind": "kani", "group": "json-scalars", "filters": ["h_json::proofs"], "need_stub": True, "timeout": 1200},
               _kd("derive-total", ["derive_camel_2", "derive_conv8_2", "derive_tagged_first"], ["derive_plain_2", "derive_lower_2", "derive_deny4_2", "derive_fns5_2", "derive_cont9", "derive_tagged_absent", "derive_tagged_not_a_map", "derive_units"]),
               _ed("derive-total", ["derive_plain_2", "derive_camel_2", "derive_lower_2", "derive_deny4_2", "derive_fns5_2", "derive_conv8_2", "derive_cont9", "derive_tagged_first", "derive_tagged_last", "derive_tagged_absent", "derive_tagged_not_a_map", "derive_units", "derive_nest"], ["derive_conv8_3"]),
